@@ -91,6 +91,20 @@ pub trait Adapter: 'static + Sized {
         false
     }
 
+    /// Crafted proofs that need the session's context (linear codes): returns the forged proof for
+    /// a single polynomial and the value it is meant to prove.
+    fn forge(
+        _kind: &str,
+        _vk: &VK<Self>,
+        _comm: &Comm<Self>,
+        _state: &CState<Self>,
+        _point: &Self::Pt,
+        _sp: &LogSponge<Self::F>,
+        _rng: &mut ChaCha20Rng,
+    ) -> Option<(Proof<Self>, Self::F)> {
+        None
+    }
+
     /// Names of the verifier-visible proof components `proof_mutation("replace:<name>")` understands.
     fn proof_components(_p: &Proof<Self>) -> Vec<String> {
         vec![]
@@ -347,6 +361,16 @@ pub fn ml_poly<F: PrimeField>(spec: &PolySpec, nv: usize, rng: &mut ChaCha20Rng)
 pub fn point_vec<F: PrimeField>(id: i64, nv: usize) -> Vec<F> {
     let mut rng = rng_for("pointvec", id as u64);
     (0..nv).map(|_| nonzero(&mut rng)).collect()
+}
+
+/// number of variables of a multilinear polynomial: class "nv" asks for `deg` variables
+/// (a wrong-number-of-variables request), every other class uses the key's number
+fn ml_nv(spec: &PolySpec, beh: &Beh) -> usize {
+    if spec.cls == "nv" {
+        spec.deg.max(0) as usize
+    } else {
+        nv_of(beh)
+    }
 }
 
 fn nv_of(beh: &Beh) -> usize {
@@ -749,8 +773,7 @@ impl Adapter for Hyrax {
     const NAME: &'static str = "hyrax";
     const FAMILY: &'static str = "ml";
     fn make_poly(spec: &PolySpec, beh: &Beh, rng: &mut ChaCha20Rng) -> Self::P {
-        let nv = if spec.deg > 0 && spec.cls == "nv" { spec.deg as usize } else { nv_of(beh) };
-        ml_poly(spec, nv, rng)
+        ml_poly(spec, ml_nv(spec, beh), rng)
     }
     fn make_point(id: i64, beh: &Beh) -> Self::Pt {
         point_vec(id, nv_of(beh))
@@ -847,7 +870,7 @@ impl Adapter for Hyrax {
 }
 
 macro_rules! lincode_adapter {
-    ($name:ident, $pc:ty, $p:ty, $pt:ty, $sname:expr, $fam:expr, $mkpoly:expr, $mkpt:expr) => {
+    ($name:ident, $pc:ty, $enc:ty, $p:ty, $pt:ty, $sname:expr, $fam:expr, $mkpoly:expr, $mkpt:expr) => {
         pub struct $name;
         impl Adapter for $name {
             type F = Fr381;
@@ -895,6 +918,29 @@ macro_rules! lincode_adapter {
                     return vec![];
                 }
                 ["v0", "wf0", "col0", "path0"].iter().map(|s| s.to_string()).collect()
+            }
+            fn forge(
+                kind: &str,
+                vk: &VK<Self>,
+                comm: &Comm<Self>,
+                state: &CState<Self>,
+                point: &Self::Pt,
+                sp: &LogSponge<Self::F>,
+                rng: &mut ChaCha20Rng,
+            ) -> Option<(Proof<Self>, Self::F)> {
+                use ark_poly_commit::verif_api::linear_codes as lc;
+                $crate::forge::forge::<$enc, $p, _, _>(
+                    kind,
+                    vk,
+                    comm,
+                    state,
+                    point,
+                    sp,
+                    |c| lc::commitment_parts::<MTConfig>(c),
+                    |s| lc::state_parts::<Fr381, ColH<Fr381>>(s),
+                    rng,
+                )
+                .map(|(p, v)| (vec![p], v))
             }
         }
     };
@@ -1021,6 +1067,7 @@ pub fn lincode_proof_mutation(
 lincode_adapter!(
     LigeroUni,
     LigeroUniPC,
+    UnivariateLigero<Fr381, MTConfig, UniPoly<Fr381>, ColH<Fr381>>,
     UniPoly<Fr381>,
     Fr381,
     "ligero_uni",
@@ -1031,21 +1078,23 @@ lincode_adapter!(
 lincode_adapter!(
     LigeroMl,
     LigeroMlPC,
+    MultilinearLigero<Fr381, MTConfig, MlPoly<Fr381>, ColH<Fr381>>,
     MlPoly<Fr381>,
     Vec<Fr381>,
     "ligero_ml",
     "ml",
-    |spec: &PolySpec, beh: &Beh, rng: &mut ChaCha20Rng| ml_poly::<Fr381>(spec, nv_of(beh), rng),
+    |spec: &PolySpec, beh: &Beh, rng: &mut ChaCha20Rng| ml_poly::<Fr381>(spec, ml_nv(spec, beh), rng),
     |id: i64, beh: &Beh| point_vec::<Fr381>(id, nv_of(beh))
 );
 lincode_adapter!(
     Brakedown,
     BrakedownPC,
+    MultilinearBrakedown<Fr381, MTConfig, MlPoly<Fr381>, ColH<Fr381>>,
     MlPoly<Fr381>,
     Vec<Fr381>,
     "brakedown",
     "ml",
-    |spec: &PolySpec, beh: &Beh, rng: &mut ChaCha20Rng| ml_poly::<Fr381>(spec, nv_of(beh), rng),
+    |spec: &PolySpec, beh: &Beh, rng: &mut ChaCha20Rng| ml_poly::<Fr381>(spec, ml_nv(spec, beh), rng),
     |id: i64, beh: &Beh| point_vec::<Fr381>(id, nv_of(beh))
 );
 
